@@ -1,5 +1,4 @@
 import Lean
-import Props
 /-!
   Audit: lists every declaration in the `Props.Cxx` namespaces with its kind and the axioms
   it depends on, as JSON lines.  Run with `lake env lean --run Audit.lean`.
@@ -16,9 +15,13 @@ def propOf (n : Name) : String :=
   | _ :: c :: _ => c.toString
   | _ => ""
 
-unsafe def main : IO UInt32 := do
+unsafe def main (args : List String) : IO UInt32 := do
   initSearchPath (← findSysroot)
-  let env ← importModules #[{ module := `Props }] {} (trustLevel := 1024)
+  -- the module to audit, e.g. `Props.C05` (default: all of `Props`)
+  let modName : Name := match args with
+    | m :: _ => m.splitOn "." |>.foldl (fun n s => Name.str n s) Name.anonymous
+    | [] => `Props
+  let env ← importModules #[{ module := modName }] {} (trustLevel := 1024)
   let mut bad := 0
   let out ← IO.getStdout
   for (n, ci) in env.constants.toList do
